@@ -332,3 +332,54 @@ def boustrophedon(h, w):
             row.reverse()
         out += row
     return out
+
+
+def zoo():
+    """Named mid-sized graphs with *structure* (5..10 vertices): shapes that neither the all-graphs-up-to-5 enumeration nor
+    the path / cycle / grid scale families contain.  Returns [(name, n, edges)], each also in a relabelled presentation
+    (vertex ids permuted by a fixed non-monotone permutation, edge list reversed, orientation alternating) so that
+    nothing depends on vertex 0 being special or on edges being sorted."""
+    base = []
+
+    def add(name, n, edges):
+        base.append((name, n, [tuple(e) for e in edges]))
+
+    add("bowtie", 5, [(0, 1), (1, 2), (0, 2), (2, 3), (3, 4), (2, 4)])
+    add("theta", 5, [(0, 2), (2, 1), (0, 3), (3, 1), (0, 4), (4, 1)])
+    add("k4-pendant", 5, [(0, 1), (0, 2), (0, 3), (1, 2), (1, 3), (2, 3), (3, 4)])
+    add("path-isolated-mid", 5, [(0, 1), (1, 3), (3, 4)])
+    add("star-deg4", 5, [(2, 0), (2, 1), (2, 3), (2, 4)])
+    add("two-far-edges", 6, [(0, 5), (1, 2)])
+    add("sparse8", 8, [(0, 7), (2, 5), (6, 1)])
+    add("prism", 6, [(0, 1), (1, 2), (0, 2), (3, 4), (4, 5), (3, 5), (0, 3), (1, 4), (2, 5)])
+    add("wheel5", 6, [(i, (i + 1) % 5) for i in range(5)] + [(5, i) for i in range(5)])
+    add("two-squares-one-vertex", 7, [(0, 1), (1, 2), (2, 3), (3, 0), (3, 4), (4, 5), (5, 6), (6, 3)])
+    add("dumbbell", 7, [(0, 1), (1, 2), (0, 2), (2, 3), (3, 4), (4, 5), (5, 6), (4, 6)])
+    add("triangle-path-isolated", 7, [(0, 1), (1, 2), (0, 2), (3, 4), (4, 5)])
+    add("cycle7-chord", 7, [(i, (i + 1) % 7) for i in range(7)] + [(1, 4)])
+    add("caterpillar", 8, [(0, 1), (1, 2), (2, 3), (0, 4), (1, 5), (2, 6), (3, 7)])
+    add("cube", 8, [(a, a ^ b) for a in range(8) for b in (1, 2, 4) if a < a ^ b])
+    add("ladder4", 8, [(i, i + 1) for i in range(3)] + [(4 + i, 5 + i) for i in range(3)] + [(i, i + 4) for i in range(4)])
+    add("spider-deg4", 9, [(0, 1), (1, 2), (0, 3), (3, 4), (0, 5), (5, 6), (0, 7), (7, 8)])
+    add("three-triangles-chain", 7, [(0, 1), (1, 2), (0, 2), (2, 3), (3, 4), (2, 4), (4, 5), (5, 6), (4, 6)])
+    add("petersen", 10, [(i, (i + 1) % 5) for i in range(5)] + [(5 + i, 5 + (i + 2) % 5) for i in range(5)] + [(i, i + 5) for i in range(5)])
+    out = []
+    for name, n, edges in base:
+        out.append((name, n, edges))
+        perm = [(3 * i + 2) % n if n % 3 else (i * 5 + 1) % n if n % 5 else (n - 1 - i) for i in range(n)]
+        assert sorted(perm) == list(range(n))
+        rel = orient(list(reversed([(perm[u], perm[v]) for u, v in edges])), 3)
+        out.append((name + "~relabelled", n, rel))
+    return out
+
+
+def sparse_multigraphs(n, max_edges, max_mult=2):
+    """All labelled loop-free multigraphs on n vertices with <= max_edges edges (multiplicity <= max_mult), enumerated by
+    edge multiset (cheap when max_edges is small and n is not): graphs with many more vertices than edges, isolated
+    vertices in every position."""
+    pairs = all_pairs(n)
+    for k in range(max_edges + 1):
+        for es in itertools.combinations_with_replacement(pairs, k):
+            if max_mult < k and any(es.count(p) > max_mult for p in set(es)):
+                continue
+            yield list(es)
